@@ -46,6 +46,7 @@ func c01Gen(r *rand.Rand, tier string) any {
 			sc.Ops = append(sc.Ops, *op)
 		case k < 17:
 			op := opSpec{Op: "build", Label: pickLabel(r, shadow)}
+			op.Reload = r.IntN(6) == 0
 			if r.IntN(8) == 0 {
 				op.Always = true
 			}
@@ -277,7 +278,7 @@ func c02Gen(r *rand.Rand, tier string) any {
 		if r.IntN(5) == 0 {
 			sc.Ops = append(sc.Ops, opSpec{Op: "load-only", Index: r.IntN(2) == 0})
 		}
-		sc.Ops = append(sc.Ops, opSpec{Op: "build", Label: label, N: 1}) // N=1: the checked rebuild
+		sc.Ops = append(sc.Ops, opSpec{Op: "build", Label: label, N: 1, Reload: r.IntN(5) == 0}) // N=1: the checked rebuild
 	}
 	return sc
 }
